@@ -94,6 +94,27 @@ Proof.
   - intros i Hi. rewrite forallb_forall in H4. apply Qeq_bool_iff. apply H4. apply in_seq. lia.
 Qed.
 
+Lemma alias_table_slack_ok_sound : forall p prob alias, alias_table_slack_ok p prob alias = true ->
+  length prob = length p /\ length alias = length p /\
+  Forall (fun a => (a < length p)%nat) alias /\
+  forall i, (i < length p)%nat ->
+    - qabs (qsum p - 1) <= alias_mass prob alias i - nthq p i /\
+    alias_mass prob alias i - nthq p i <= qabs (qsum p - 1) /\
+    (nthq p i == 0 -> alias_mass prob alias i == 0).
+Proof.
+  intros p prob alias H. unfold alias_table_slack_ok in H.
+  rewrite !andb_true_iff in H. destruct H as [[[H1 H2] H3] H4].
+  apply Nat.eqb_eq in H1. apply Nat.eqb_eq in H2.
+  split; [exact H1| split; [exact H2| split]].
+  - apply Forall_forall. intros a Ha. rewrite forallb_forall in H3. specialize (H3 a Ha).
+    apply Nat.ltb_lt in H3. exact H3.
+  - intros i Hi. rewrite forallb_forall in H4. specialize (H4 i ltac:(apply in_seq; lia)).
+    cbv zeta in H4. rewrite !andb_true_iff, orb_true_iff, negb_true_iff, !Qle_bool_iff in H4.
+    destruct H4 as [[L U] S]. split; [exact L| split; [exact U|]].
+    intros Z. destruct S as [S|S]; [| apply Qeq_bool_iff; exact S].
+    apply Qeq_bool_iff in Z. congruence.
+Qed.
+
 (* the construction as it stands: [1/2,1/4,1/4] gets the uniform table *)
 Lemma alias_mass_refuted_lemma : exists p prob alias i,
   is_dist p /\ vose_cur p = Some (prob, alias) /\ (i < length p)%nat /\
